@@ -118,6 +118,9 @@ class _NP:
     def zeros(self, shape, dtype=None, **kw):
         return sx.typed_empty(shape, dtype, fill=0)  # an integer dtype request gives a truncating buffer
 
+    def full(self, shape, fill_value, dtype=None, **kw):
+        return sx.typed_empty(shape, dtype, fill=fill_value)
+
 
 class _Rnd:
     def __init__(self, C):
